@@ -58,6 +58,16 @@ pub fn total_for(kind: WKind, pcm: &Pcm) -> u64 {
 }
 
 thread_local! {
+    /// set when that finalize() reported success (read and reset by the C13 sweep)
+    pub static FINALIZE_OK_AFTER_ERROR: std::cell::Cell<bool> = const { std::cell::Cell::new(false) };
+}
+
+thread_local! {
+    /// when set, a failed write call is followed by an explicit finalize() whose verdict `encode` returns
+    pub static FINALIZE_AFTER_ERROR: std::cell::Cell<bool> = const { std::cell::Cell::new(false) };
+}
+
+thread_local! {
     /// when set, `encode` calls `io::Write::flush` on a byte writer after every other write call
     pub static FLUSH_BETWEEN: std::cell::Cell<bool> = const { std::cell::Cell::new(false) };
 }
@@ -84,6 +94,18 @@ fn write_loop<W: Write>(w: &mut W, mut b: &[u8], use_write_all: bool) -> std::io
 macro_rules! wtry {
     ($w:ident, $e:expr, $conv:ident) => {
         if let Err(e) = $e {
+            if FINALIZE_AFTER_ERROR.with(|f| f.get()) {
+                // a caller that carries on to finalize() after a failed write: finalize is then the last
+                // word, and if it says Ok the output had better be complete
+                crate::monitor::probe("finalize_called_after_failed_write");
+                return match ManuallyDrop::into_inner($w).finalize() {
+                    Ok(()) => {
+                        FINALIZE_OK_AFTER_ERROR.with(|f| f.set(true));
+                        Ok(())
+                    }
+                    Err(_) => Err($conv("write", e)),
+                };
+            }
             drop(ManuallyDrop::into_inner($w));
             return Err($conv("write", e));
         }
